@@ -32,8 +32,8 @@ def cli_stage(out, tier, replay=None):
     else:
         rng = core.Rng(core.seed(), 1010)
         pairs = []
-        for k in range(8 if tier == "quick" else 80):
-            inp = l6.gen_input(rng, rng.choice(["plain", "dca", "lots", "plain"]), n_assets=rng.choice([1, 2]))
+        for k in range(24 if tier == "quick" else 160):
+            inp = l6.gen_input(rng, rng.choice(["dca", "lots", "lots", "plain"]), n_assets=1)
             years = sorted({d.year for a in inp["assets"] for d, _, _ in l6.all_events(a)})
             if len(years) < 2:
                 continue
@@ -58,13 +58,16 @@ def cli_stage(out, tier, replay=None):
         if rw["rc"] != 0:
             out.violation(f"rp2_{b['country']} succeeds without a window and fails with -f {w['opts']['from']}: {rw['err']}", case, tags={"cli-window"})
             continue
+        # (reports are matched by kind: the method prefix of the file names is the business of the C16 check)
+        kind_of = lambda fn: fn[fn.index("tax_report"):]  # noqa: E731
+        base_by_kind = {kind_of(fn): v for fn, v in rb["files"].items() if "tax_report" in fn}
         for fn, fw in rw["files"].items():
-            if "tax_report" not in fn or fn not in rb["files"] or fw.get("bad") or rb["files"][fn].get("bad"):
+            if "tax_report" not in fn or kind_of(fn) not in base_by_kind or fw.get("bad") or base_by_kind[kind_of(fn)].get("bad"):
                 continue
             all_rows = {}
             # a row = its cells without the visual style (the first row shown of a report carries a border style)
             rowkey = lambda r: json.dumps([None if c is None else list(c[:4]) for c in r])  # noqa: E731  (type, value, formula, text)
-            for _, rows in rb["files"][fn]["sheets"]:
+            for _, rows in base_by_kind[kind_of(fn)]["sheets"]:
                 for r in rows:
                     key = rowkey(r)
                     all_rows[key] = all_rows.get(key, 0) + 1
